@@ -261,6 +261,33 @@ def run(ctx, R, tier):
         uses_exc = H.name and any(isinstance(n, ast.Name) and n.id == H.name for st in H.body for n in walk_no_nested(st))
         R.check(bool(uses_exc), "C08-R4", "_handshake|failure-carries-reason", "the CONNECTFAIL payload is derived from the exception", f.loc(H),
                 "the connect-failure no longer carries the reason")
+        # the failure answer is encoded with serializers_by_id[<var>]: that lookup must not be able to fail, i.e. <var> holds either the built-in default
+        # or an id whose lookup already succeeded
+        lookups = [n for st in H.body for n in walk_no_nested(st) if isinstance(n, ast.Subscript) and unparse(n.value).endswith("serializers_by_id")
+                   and isinstance(n.slice, ast.Name)]
+        if not lookups:
+            raise AnalysisError("_handshake: the failure handler no longer picks its serializer from serializers_by_id[<id variable>]")
+        idvar = lookups[0].slice.id
+        cfg_h = ctx.cfg(f)
+        bad_def = None
+        for st, t, k in stores_in(f.node):
+            if not (isinstance(t, ast.Name) and t.id == idvar and k == "assign"):
+                continue
+            okc, _v = ctx.const(st.value, f)
+            root = st.value
+            while isinstance(root, ast.Attribute):
+                root = root.value
+            if okc or (isinstance(root, ast.Name) and not ctx.cg.is_local(f, root.id) and root.id not in f.params):
+                continue      # the built-in default id (a constant or a class attribute of the serializers module, nothing taken from the message)
+            src = unparse(st.value)
+            proved = [x for x in walk_no_nested(f.node) if isinstance(x, ast.Subscript) and unparse(x.value).endswith("serializers_by_id") and unparse(x.slice) == src]
+            dom = any(cfg_h.dominates(a, b) and a is not b for x in proved for a in cfg_h.nodes_for(enclosing_stmt(x)) for b in cfg_h.nodes_for(st))
+            if not dom:
+                bad_def = st
+        R.check(bad_def is None, "C08-R4", "_handshake|failure-answer-serializer-known", "the serializer id used for the failure answer is the default or one whose lookup succeeded",
+                f.loc(bad_def) if bad_def is not None else f.loc(H),
+                "`%s` adopts the peer's serializer id before it has been looked up: with an unknown id the failure handler's own lookup raises KeyError and the "
+                "peer gets no connect-failure at all" % (unparse(bad_def) if bad_def is not None else ""))
     for h in T.handlers:
         if handler_is_catch_all(h):
             continue
